@@ -45,43 +45,54 @@ def _instantiate_policy(ci):
     return ci.module.name.startswith("indi.device.properties.") or ci.qualname == "indi.device.events.EventSourceDefinition"
 
 
+_SWITCH_SRC = '''
+from indi.device import Driver, properties
+
+
+class DevA(Driver):
+    grp = properties.Group(
+        "GRP",
+        vectors=dict(
+            sw=properties.SwitchVector(
+                "SW",
+                rule={rule!r},
+                elements=dict(
+                    a=properties.Switch("A", default={a!r}),
+                    b=properties.Switch("B", default={b!r}),
+                    c=properties.Switch("C", default={c!r}),
+                ),
+            )
+        ),
+    )
+'''
+
+
 def make_world(p, rule, config, it=None):
-    """Abstract switch vector of three elements, built by abstractly running the real constructors
-    (definition classes, then the instance classes), so that any field a constructor sets exists."""
-    sv, sw = _classes(p)
+    """Abstract switch vector of three elements inside a driver, all built by abstractly running the real machinery
+    (definition constructors in a class body, the metaclass, Driver.__init__, the instance constructors), so that any
+    field a constructor sets exists.  Objects are located through their public names."""
+    from .driverworld import _reachable_objs, build_drivers
     if it is None:
         raise Undecided("make_world needs the interpreter")
-    from ..absint import Frame
-    fr = Frame(None, sv.module, {})
-    saved = dict(it.opts)
-    it.opts["instantiate"] = _instantiate_policy
-    base_inline = it.opts.get("inline", lambda fi, node: False)
-    it.opts["inline"] = lambda fi, node: fi.module.name.startswith("indi.device.properties.") or fi.module.name == "indi.device.events" or base_inline(fi, node)
+    src = _SWITCH_SRC.format(rule=rule, a=config[0], b=config[1], c=config[2])
+    saved_cw = it.opts.get("closed_world")
     it.opts["closed_world"] = True
     try:
-        dsw = p.cls("indi.device.properties.definition.elements.Switch")
-        dsv = p.cls("indi.device.properties.definition.vectors.SwitchVector")
-        edefs = Dct()
-        for k, n, v in zip(KEYS, NAMES, config):
-            ed = it.apply(Cls(dsw), [], {"name": Const(n), "default": Const(v)}, [], None, fr, False)
-            edefs.set(Const(k), ed)
-        vdef = it.apply(Cls(dsv), [], {"name": Const("SW"), "rule": Const(rule), "elements": edefs}, [], None, fr, False)
-        drv = Obj(None, label="<driver>")
-        gdef = Obj(None, {"name": Const("GRP"), "enabled": Const(True)}, label="gdef")
-        grp = Obj(p.cls("indi.device.properties.instance.group.Group"), {"_device": drv, "_definition": gdef, "_enabled": Const(True)}, label="group")
-        vec = it.apply(Cls(sv), [], {"group": grp, "definition": vdef}, [], None, fr, False)
-        if not isinstance(vec, Obj):
-            raise Undecided("switch vector construction did not yield an abstract object")
-        els = [vec.attrs["_elements"].get(Const(k)) for k in KEYS]
-        for e, n in zip(els, NAMES):
-            e.label = f"sw{n}"
-        vec.label = "vector"
-        # construction events are not part of the operation under analysis
-        del it.events[:]
-        return vec, els
+        drivers = build_drivers(it, p, names=(("DevA", "DEVA"),), src=src)
     finally:
-        it.opts.clear()
-        it.opts.update(saved)
+        if saved_cw is None:
+            it.opts.pop("closed_world", None)
+        else:
+            it.opts["closed_world"] = saved_cw
+    by = {o.label: o for o in _reachable_objs(drivers["DEVA"])}
+    vec = by.get("vec:DEVA.SW")
+    els = [by.get(f"el:DEVA.SW.{n}") for n in NAMES]
+    if vec is None or any(e is None for e in els):
+        raise Undecided("the constructed driver does not hold the switch vector SW with elements A, B, C")
+    for e, n in zip(els, NAMES):
+        e.label = f"sw{n}"
+    vec.label = "vector"
+    return vec, els
 
 
 def oracle_step(rule, config, idx, written):
@@ -113,12 +124,26 @@ def _inline_policy(p):
     return pol
 
 
+def _value_field(p):
+    from .common import backing_field
+    return backing_field(p, "indi.device.properties.instance.elements.Element", "value")
+
+
+VAL = None  # the element field behind the public 'value' property; discovered from the getter by _init
+
+
+def _init(p):
+    global VAL
+    VAL = _value_field(p)
+
+
 def _state(els):
-    return tuple(show(e.attrs["_value"]).strip("'") for e in els)
+    return tuple(show(e.attrs[VAL]).strip("'") for e in els)
 
 
 def rule_step(ctx):
     p = ctx.p
+    _init(p)
     sv, sw = _classes(p)
     setter = sw.find_setter("value")
     if setter is None:
@@ -166,7 +191,7 @@ def rule_step(ctx):
                         bad += 1
                         continue
                     # publication after every store
-                    stores = [e for e in pa.events if e.kind == "store" and e.data.get("attr") == "_value"]
+                    stores = [e for e in pa.events if e.kind == "store" and e.data.get("attr") == VAL]
                     sends = pa.calls(method="send_message")
                     renders = pa.calls(method="to_set_message")
                     if len(sends) != 1 or len(renders) != 1 or (stores and renders[0].idx < max(s.idx for s in stores)):
@@ -182,7 +207,7 @@ def rule_step(ctx):
 
 def _aux_state(vec, els):
     """Everything the vector/elements hold besides the switch values and the construction-time links."""
-    skip = {"_value", "_vector", "_definition", "_enabled", "_group", "_elements", "_elements_by_name", "_state"}
+    skip = {VAL}  # construction-time links render as stable labels and never change
     out = []
     for o in [vec] + list(els):
         for k, v in sorted(o.attrs.items()):
@@ -196,6 +221,7 @@ def rule_reach(ctx):
     """Reachable-state closure under single writes: every transition must follow the rule table.  Needed because the
     rule function may keep auxiliary state (e.g. a cached selection); the one-step check only sees constructed states."""
     p = ctx.p
+    _init(p)
     sv, sw = _classes(p)
     setter = sw.find_setter("value")
     pol = _inline_policy(p)
@@ -256,6 +282,7 @@ def rule_reach(ctx):
 
 def rule_bool(ctx):
     p = ctx.p
+    _init(p)
     sv, sw = _classes(p)
     f = sw.find_setter("bool_value")
     g = sw.find_getter("bool_value")
@@ -296,6 +323,7 @@ def _apply_sequence(rule, config, ops):
 
 def rule_bulk(ctx):
     p = ctx.p
+    _init(p)
     sv, sw = _classes(p)
     f = sv.find_setter("selected_values")
     f1 = sv.find_setter("selected_value")
@@ -372,6 +400,7 @@ def rule_bulk(ctx):
 
 def rule_gate(ctx):
     p = ctx.p
+    _init(p)
     n = 0
     allowed = {
         ("Element", "__init__"), ("Element", "value"), ("Element", "reset_value"),
@@ -385,13 +414,13 @@ def rule_gate(ctx):
                 tg = node.targets if isinstance(node, ast.Assign) else [node.target]
                 for t in tg:
                     for sub in ast.walk(t):
-                        if isinstance(sub, ast.Attribute) and sub.attr == "_value" and isinstance(sub.ctx, ast.Store):
+                        if isinstance(sub, ast.Attribute) and sub.attr == VAL and isinstance(sub.ctx, ast.Store):
                             n += 1
                             key = (fi.cls.name if fi.cls else None, fi.name)
                             if key == ("Element", "value") and fi.kind != "setter":
                                 key = None
                             ctx.check(key in allowed, "C09.GATE", fi.short, "store inside the gate", f"{fi.short} writes an element's _value outside the value setter / rule function: the switch rule is bypassed", fi=fi, node=node)
-            if isinstance(node, ast.Call) and isinstance(node.func, ast.Name) and node.func.id == "setattr" and len(node.args) >= 2 and isinstance(node.args[1], ast.Constant) and node.args[1].value == "_value":
+            if isinstance(node, ast.Call) and isinstance(node.func, ast.Name) and node.func.id == "setattr" and len(node.args) >= 2 and isinstance(node.args[1], ast.Constant) and node.args[1].value == VAL:
                 n += 1
                 ctx.violated("C09.GATE", fi.short, "setattr(..., '_value', ...) bypasses the switch rule", fi=fi, node=node)
     ctx.floor("C09.GATE", "_value stores", n, 5)
